@@ -54,3 +54,19 @@ def replay_printer(ob):
     if r2.get('n_failures'):
         return {'reproduced': True, 'input': r2['failures'][:5]}
     return {'reproduced': None, 'note': 'depth-2 enumeration and literal pool show no failure'}
+
+
+def replay_fold(ob):
+    r = run_standin('fold_sweep.py', ['--depth', '2', '--samples', '6000'])
+    if r.get('n_failures'):
+        return {'reproduced': True, 'input': r['failures'][:5]}
+    if 'printer' in ob['name'] or '/L' in ob['name']:
+        return replay_printer(ob)
+    return {'reproduced': None, 'note': 'folding sweep (depth 2) shows no failure', 'detail': r.get('error')}
+
+
+def replay_sinks(ob):
+    r = run_standin('sink_canary.py', ['--len', '3'])
+    if r.get('n_failures'):
+        return {'reproduced': True, 'input': r['failures'][:5]}
+    return {'reproduced': None, 'note': 'adversarial pool up to 3 pieces triggers no non-literal evaluation', 'detail': r.get('error')}
